@@ -416,3 +416,77 @@ def meta(ctx: Ctx) -> None:
     nvar = news[0].args[0].id if news and news[0].args and isinstance(news[0].args[0], ast.Name) else None
     ok = bool(zs) and nvar is not None and all(len(z.args) == 2 and isinstance(z.args[0], ast.Name) and z.args[0].id == nvar for z in zs)
     ctx.ob(gb, zs[0] if zs else gb.node, ok, "for several outputs, result Arrays pair names with target arrays positionally", sel="meta:multi-zip")
+
+
+DECL_KW = {"dtype": ("dtype",), "chunks": ("chunks", "chunksize"), "shape": ("shape",)}
+# operations after which an array variable still has the same <attribute>
+PRESERVES = {
+    "rechunk": ("dtype", "shape"),
+    "merge_chunks": ("dtype", "shape"),
+    "astype": ("shape", "chunks", "chunksize"),
+}
+
+
+@rule("META-STALE-1", props=["C12"], floor=3)
+def meta_stale(ctx: Ctx) -> None:
+    """metadata declared for an operation (dtype=/chunks=/shape=) that is read from an operand
+    of that very operation is read from the operand *as passed*: not from a local alias taken
+    before the operand variable was rebound (x = concat([...x...]) promotes, pads, reshapes)"""
+    repo = ctx.repo
+    n = 0
+    for f in repo.functions():
+        mq = f.module.qual
+        if not mq.startswith(("cubed.array_api.", "cubed.array.", "cubed.core.", "cubed.random", "cubed.pad")) or mq.startswith("cubed.core.plan"):
+            continue
+        fl = cfg = None
+        for c in f.own_nodes():
+            if not isinstance(c, ast.Call) or not c.keywords:
+                continue
+            operands = {a.id for a in c.args if isinstance(a, ast.Name)}
+            if not operands:
+                continue
+            for k in c.keywords:
+                if k.arg not in DECL_KW:
+                    continue
+                # direct form: dtype=x.dtype with x an operand — always current
+                v = k.value
+                if isinstance(v, ast.Attribute) and isinstance(v.value, ast.Name) and v.value.id in operands and v.attr in DECL_KW[k.arg]:
+                    n += 1
+                    ctx.ob(f, c, True, f"`{k.arg}={unparse(v)}` is read from the operand as passed", sel=f"stale:{k.arg}:direct", nontrivial=False)
+                    continue
+                if not isinstance(v, ast.Name):
+                    continue
+                if fl is None:
+                    fl, cfg = flow_of(repo, f), cfg_of(f)
+                if not cfg.has(c):
+                    continue
+                at = cfg.node_of(c)
+                for s_ in fl.rdefs(v.id, at):
+                    sv = s_.value
+                    if not (s_.kind == "assign" and isinstance(sv, ast.Attribute) and isinstance(sv.value, ast.Name) and sv.value.id in operands and sv.attr in DECL_KW[k.arg]):
+                        continue
+                    X = sv.value.id
+                    n += 1
+                    at_alias = {d_.node for d_ in fl.rdefs(X, s_.node)}
+                    at_call = {d_.node for d_ in fl.rdefs(X, at)}
+                    # a rebinding through an operation that keeps this attribute is harmless
+                    # (x = x.rechunk(...) keeps dtype and shape, astype keeps the geometry)
+                    newdefs = [d_ for d_ in fl.rdefs(X, at) if d_.node in (at_call - at_alias)]
+
+                    def keeps(d_) -> bool:
+                        val = d_.value
+                        if not isinstance(val, ast.Call):
+                            return False
+                        fn = val.func.attr if isinstance(val.func, ast.Attribute) else (val.func.id if isinstance(val.func, ast.Name) else "")
+                        return sv.attr in PRESERVES.get(fn, ())
+
+                    stale = bool(newdefs) and not all(keeps(d_) for d_ in newdefs)
+                    ctx.ob(
+                        f,
+                        c,
+                        not stale,
+                        f"`{k.arg}={v.id}` ({v.id} = {unparse(sv)}) describes operand `{X}` of `{unparse(c.func, 30)}`"
+                        + ("" if not stale else f" — but `{X}` is rebound between the alias and the call: the operation is declared with the previous {sv.attr} (e.g. before concatenation promoted it) while its blocks have the new one"),
+                        sel=f"stale:{k.arg}:{ctx.anon(f, c.func, 30)}",
+                    )
+    ctx.need(n >= 3, f"only {n} declarations read from an operand found")
